@@ -61,6 +61,23 @@ def run(ctx):
         w = t.clone(); w.default = t.default + 1.0
         pairs.append(('default-changed', w))
         pairs.append(('other-shape', random_pt(ctx.rng, types + [('atom', 2)], values=vals, defaults=vals)))
+        # operands that SHARE PhysicalAxis objects with t, in other positions: views of t itself (transpose/permute reuse t's axes;
+        # a symmetrised tensor is then equal to its own transpose), and another tensor built over t's axis objects
+        if nd >= 2:
+            perm = list(range(nd)); ctx.rng.shuffle(perm)
+            if [t.shape[i] for i in perm] == list(t.shape):
+                pairs.append(('own-view', t.permute(perm)))
+                if nd == 2 and perm == [1, 0]:
+                    sym = PatternedTensor((t.to_dense() + t.to_dense().t()).contiguous())
+                    rp = repattern(ctx.rng, sym, types)
+                    pairs.append(('symmetric-vs-own-transpose', rp.t()))
+                    t_sym = rp
+                    for (rtol, atol) in [(0.0, 0.0), (0.5, 0.0)]:
+                        one_pair(ctx, 'symmetric-vs-own-transpose', t_sym, t_sym.t(), rtol, atol, reqs, meta)
+                    pairs.pop()
+        from .c09 import share_axes
+        pairs.append(('shared-axes', share_axes(ctx.rng, t, random_pt(ctx.rng, types, values=vals, defaults=vals, specials=0.05, max_phys=120))))
+        pairs.append(('shared-axes-same', share_axes(ctx.rng, t, repattern(ctx.rng, t, types))))
         for kind, u in pairs:
             for (rtol, atol) in (TOLS if not ctx.quick else [(0.5, 0.0), ctx.rng.choice(TOLS[:3])]):
                 one_pair(ctx, kind, t, u, rtol, atol, reqs, meta)
